@@ -9,7 +9,8 @@
        one abstract container, dumped with -dump; `cls` is the specification's classification.  *)
 EXTENDS Encryption
 
-CONSTANTS GenKinds,        \* subset of Kinds to enumerate
+CONSTANTS PdfSweep,        \* "diag" | "full": how many plaintext-length layouts per empty-password PDF
+          GenKinds,        \* subset of Kinds to enumerate
           MaxRecs,         \* xls: record sequences up to this length
           MaxEntries,      \* odf: manifest entries up to this length
           MaxMembers,      \* zip: members up to this length
@@ -25,9 +26,20 @@ DocU   == { [kind |-> "doc", fEncrypted |-> e, fObfuscated |-> o] : e \in BOOLEA
 OdfEntry == [name : OdfNames, ed : BOOLEAN]
 OdfU   == { [kind |-> "odf", enc |-> e, prefix |-> p, entries |-> s] :
               e \in {"utf8", "utf16"}, p \in {"manifest", "m"}, s \in NonEmptySeqs(OdfEntry, MaxEntries) }
-PdfU   == { [kind |-> "pdf", alg |-> a, userEmpty |-> u, owner |-> o] :
-              a \in PdfAlgs \ {"none"}, u \in BOOLEAN, o \in PdfOwners }
-          \cup { [kind |-> "pdf", alg |-> "none", userEmpty |-> TRUE, owner |-> "same"] }   \* no /Encrypt: no passwords
+\* plaintext-length layouts (see Encryption.tla): all 18, or the diagonal + two mixed ones per compression mode;
+\* AES-256 revision 6 (whose pure-Python key derivation costs seconds per open) gets two layouts in the "diag" sweep
+Residues == {0, 1, 15}
+Layouts  == [flate : BOOLEAN, slen : Residues, strlen : Residues]
+DiagLayouts == { y \in Layouts : y.slen = y.strlen \/ (y.slen = 0 /\ y.strlen = 1) \/ (y.slen = 1 /\ y.strlen = 0) }
+R6Layouts == { [flate |-> FALSE, slen |-> 0, strlen |-> 0], [flate |-> TRUE, slen |-> 0, strlen |-> 1] }
+DefaultLayout == [flate |-> FALSE, slen |-> 1, strlen |-> 1]
+SweepOf(a) == IF PdfSweep = "full" THEN Layouts ELSE IF a = "AES-256" THEN R6Layouts ELSE DiagLayouts
+Pdf(a, u, o, y) == [kind |-> "pdf", alg |-> a, userEmpty |-> u, owner |-> o,
+                    flate |-> y.flate, slen |-> y.slen, strlen |-> y.strlen]
+PdfU   == { Pdf(a, u, o, DefaultLayout) : a \in PdfAlgs \ {"none"}, u \in BOOLEAN, o \in PdfOwners }
+          \cup UNION { { Pdf(a, TRUE, "distinct", y) : y \in SweepOf(a) } : a \in PdfAlgs \ {"none"} }
+          \cup { Pdf("none", TRUE, "same", y) : y \in {DefaultLayout, [flate |-> TRUE, slen |-> 0, strlen |-> 0]} }
+                                                                          \* no /Encrypt: no passwords
 ZipU   == { [kind |-> "zip", members |-> m] : m \in NonEmptySeqs(ZipMembers, MaxMembers) }
 \* coder chains as 7-Zip writes them (+ the unknown 06F107xx id alone)
 CoderChains == { <<"COPY">>, <<"LZMA">>, <<"LZMA2">>, <<"BCJ", "LZMA">>, <<"AES">>, <<"AES", "LZMA2">>,
